@@ -2,6 +2,7 @@ import AlgopyVerif.Proofs.Tape
 import AlgopyVerif.Proofs.Pullback
 import AlgopyVerif.Proofs.MatPullback
 import AlgopyVerif.Proofs.ArrayAdjoint
+import AlgopyVerif.Proofs.EighPullback
 /-!
 # C03 — reverse mode agrees with forward mode at every Taylor order
 
@@ -32,7 +33,10 @@ correspondence run for 25 unary + 4 binary kernels) are these ring expressions i
 (`Xbar = -Yᵀ Ybar Yᵀ`, tangent `-Y dX Y` derived from `XY = 1`), `solve` (`Bbar = Yᵀ Zbar`,
 `Xbar = -Bbar Zᵀ`), `trace`, `transpose`, `det` (Jacobi's formula in algebraic form; `Xbar = ybar det(X) X⁻ᵀ`).
 The C03 run compares `pb_dot, pb_inv, pb_solve, pb_trace, pb_det` of the code with exactly these formulas
-evaluated in Taylor arithmetic.
+evaluated in Taylor arithmetic.  **Symmetric eigendecomposition** (`matrix_eigh_tangent`, `matrix_eigh_adjoint`): from the
+linearised defining equations, `dΛ = diag(QᵀdAQ)` and `dQ = Q (H ∘ QᵀdAQ)` with `H_mn (λ_n − λ_m) = 1` **in the
+series ring** (a Taylor polynomial, not its order-0 value — the defect repaired in `_eigh_pullback`), and
+`Abar = Q (Λbar + H ∘ (QᵀQbar)) Qᵀ` is the adjoint.
 
 **Array level** (`gather_scatter_adjoint`, `reduction_adjoint`, `item_assignment_adjoint`,
 `Proofs/ArrayAdjoint.lean`): every cell-moving operation (broadcasting, basic indexing / views, reshape,
@@ -43,8 +47,8 @@ assignment along an injective map gives `ybar` masked outside the selection to t
 gathered through the selection to the assigned value.
 
 Not proved (partial): the lowering of the array-level tracer to tapes is argued, not mechanised;
-the local adjoint conditions of the factorization pullbacks (`logdet` through `lu2`, `qr, cholesky, lu,
-eigh, svd`) — those are checked on the implementation by the adjoint-identity oracle.
+the local adjoint conditions of the other factorization pullbacks (`logdet` through `lu2`, `qr, cholesky, lu,
+svd`) — those are checked on the implementation by the adjoint-identity oracle.
 -/
 open AV AV.Tape
 namespace AV.C03
@@ -151,6 +155,23 @@ theorem matrix_trace_adjoint (dX : Matrix n n S) (ybar : S) :
 
 theorem matrix_transpose_adjoint (dX : Matrix n m S) (Ybar : Matrix m n S) : pair Ybar dXᵀ = pair Ybarᵀ dX :=
   transpose_adjoint dX Ybar
+
+/-- tangent of `eigh` from the linearised defining equations (no 2-torsion: `2` is a unit in `ℝ[t]/(t^D)`) -/
+theorem matrix_eigh_tangent (A dA Q dQ : Matrix n n S) (l dl : n → S) (H : Matrix n n S)
+    (hQtQ : Qᵀ * Q = 1) (hAQ : A * Q = Q * Matrix.diagonal l)
+    (hlin : dA * Q + A * dQ = dQ * Matrix.diagonal l + Q * Matrix.diagonal dl)
+    (hskew : Qᵀ * dQ + dQᵀ * Q = 0)
+    (hH : ∀ a b, a ≠ b → H a b * (l b - l a) = 1) (hH0 : ∀ a, H a a = 0) (hsymA : Aᵀ = A)
+    (h2 : ∀ a : S, a + a = 0 → a = 0) :
+    (∀ a, dl a = (Qᵀ * dA * Q) a a) ∧ Qᵀ * dQ = had H (Qᵀ * dA * Q) :=
+  eigh_tangent A dA Q dQ l dl H hQtQ hAQ hlin hskew hH hH0 hsymA h2
+
+/-- `_eigh_pullback`: `Abar = Q (Λbar + H ∘ (QᵀQbar)) Qᵀ` -/
+theorem matrix_eigh_adjoint (dA Q Qbar : Matrix n n S) (lbar : n → S) (H : Matrix n n S) :
+    pair (Matrix.diagonal lbar) (Matrix.of fun i j => if i = j then (Qᵀ * dA * Q) i j else 0)
+        + pair Qbar (Q * had H (Qᵀ * dA * Q))
+      = pair (Q * (Matrix.diagonal lbar + had H (Qᵀ * Qbar)) * Qᵀ) dA :=
+  eigh_adjoint dA Q Qbar lbar H
 
 theorem matrix_det_adjoint (X Y dX : Matrix n n S) (hXY : X * Y = 1) (ybar r : S) :
     (∃ c : S, (X + r • dX).det = X.det + X.det * (Y * dX).trace * r + c * r ^ 2)
